@@ -2,3 +2,4 @@ pub mod core;
 pub mod c05;
 pub mod c12;
 pub mod c20;
+pub mod c17;
